@@ -98,32 +98,22 @@ Record state := mkState {
   s_err : option (ekind * list (item * nat));   (* excinfo kind, errorstack outermost first *)
   s_log : list item;                            (* ghost: formula executions, most recent first *)
   s_maxdepth : nat;
-  s_recalc : bool }.
+  s_recalc : bool;
+  s_reent : bool }.                             (* ghost: some formula was entered while already executing *)
 
-Definition upd_data st d := mkState (s_cells st) (s_refs st) d (s_inputs st) (s_nodes st) (s_edges st)
-  (s_rnodes st) (s_redges st) (s_stack st) (s_refstack st) (s_rolled st) (s_err st) (s_log st) (s_maxdepth st) (s_recalc st).
-Definition upd_inputs st i := mkState (s_cells st) (s_refs st) (s_data st) i (s_nodes st) (s_edges st)
-  (s_rnodes st) (s_redges st) (s_stack st) (s_refstack st) (s_rolled st) (s_err st) (s_log st) (s_maxdepth st) (s_recalc st).
-Definition upd_graph st n e := mkState (s_cells st) (s_refs st) (s_data st) (s_inputs st) n e
-  (s_rnodes st) (s_redges st) (s_stack st) (s_refstack st) (s_rolled st) (s_err st) (s_log st) (s_maxdepth st) (s_recalc st).
-Definition upd_rgraph st n e := mkState (s_cells st) (s_refs st) (s_data st) (s_inputs st) (s_nodes st) (s_edges st)
-  n e (s_stack st) (s_refstack st) (s_rolled st) (s_err st) (s_log st) (s_maxdepth st) (s_recalc st).
-Definition upd_stack st s := mkState (s_cells st) (s_refs st) (s_data st) (s_inputs st) (s_nodes st) (s_edges st)
-  (s_rnodes st) (s_redges st) s (s_refstack st) (s_rolled st) (s_err st) (s_log st) (s_maxdepth st) (s_recalc st).
-Definition upd_refstack st s := mkState (s_cells st) (s_refs st) (s_data st) (s_inputs st) (s_nodes st) (s_edges st)
-  (s_rnodes st) (s_redges st) (s_stack st) s (s_rolled st) (s_err st) (s_log st) (s_maxdepth st) (s_recalc st).
-Definition upd_rolled st r := mkState (s_cells st) (s_refs st) (s_data st) (s_inputs st) (s_nodes st) (s_edges st)
-  (s_rnodes st) (s_redges st) (s_stack st) (s_refstack st) r (s_err st) (s_log st) (s_maxdepth st) (s_recalc st).
-Definition upd_err st e := mkState (s_cells st) (s_refs st) (s_data st) (s_inputs st) (s_nodes st) (s_edges st)
-  (s_rnodes st) (s_redges st) (s_stack st) (s_refstack st) (s_rolled st) e (s_log st) (s_maxdepth st) (s_recalc st).
-Definition upd_log st l := mkState (s_cells st) (s_refs st) (s_data st) (s_inputs st) (s_nodes st) (s_edges st)
-  (s_rnodes st) (s_redges st) (s_stack st) (s_refstack st) (s_rolled st) (s_err st) l (s_maxdepth st) (s_recalc st).
-Definition upd_cells st c := mkState c (s_refs st) (s_data st) (s_inputs st) (s_nodes st) (s_edges st)
-  (s_rnodes st) (s_redges st) (s_stack st) (s_refstack st) (s_rolled st) (s_err st) (s_log st) (s_maxdepth st) (s_recalc st).
-Definition upd_refs st r := mkState (s_cells st) r (s_data st) (s_inputs st) (s_nodes st) (s_edges st)
-  (s_rnodes st) (s_redges st) (s_stack st) (s_refstack st) (s_rolled st) (s_err st) (s_log st) (s_maxdepth st) (s_recalc st).
-Definition upd_recalc st b := mkState (s_cells st) (s_refs st) (s_data st) (s_inputs st) (s_nodes st) (s_edges st)
-  (s_rnodes st) (s_redges st) (s_stack st) (s_refstack st) (s_rolled st) (s_err st) (s_log st) (s_maxdepth st) b.
+Definition upd_data st d := mkState (s_cells st) (s_refs st) d (s_inputs st) (s_nodes st) (s_edges st) (s_rnodes st) (s_redges st) (s_stack st) (s_refstack st) (s_rolled st) (s_err st) (s_log st) (s_maxdepth st) (s_recalc st) (s_reent st).
+Definition upd_inputs st i := mkState (s_cells st) (s_refs st) (s_data st) i (s_nodes st) (s_edges st) (s_rnodes st) (s_redges st) (s_stack st) (s_refstack st) (s_rolled st) (s_err st) (s_log st) (s_maxdepth st) (s_recalc st) (s_reent st).
+Definition upd_graph st n e := mkState (s_cells st) (s_refs st) (s_data st) (s_inputs st) n e (s_rnodes st) (s_redges st) (s_stack st) (s_refstack st) (s_rolled st) (s_err st) (s_log st) (s_maxdepth st) (s_recalc st) (s_reent st).
+Definition upd_rgraph st n e := mkState (s_cells st) (s_refs st) (s_data st) (s_inputs st) (s_nodes st) (s_edges st) n e (s_stack st) (s_refstack st) (s_rolled st) (s_err st) (s_log st) (s_maxdepth st) (s_recalc st) (s_reent st).
+Definition upd_stack st s := mkState (s_cells st) (s_refs st) (s_data st) (s_inputs st) (s_nodes st) (s_edges st) (s_rnodes st) (s_redges st) s (s_refstack st) (s_rolled st) (s_err st) (s_log st) (s_maxdepth st) (s_recalc st) (s_reent st).
+Definition upd_refstack st s := mkState (s_cells st) (s_refs st) (s_data st) (s_inputs st) (s_nodes st) (s_edges st) (s_rnodes st) (s_redges st) (s_stack st) s (s_rolled st) (s_err st) (s_log st) (s_maxdepth st) (s_recalc st) (s_reent st).
+Definition upd_rolled st r := mkState (s_cells st) (s_refs st) (s_data st) (s_inputs st) (s_nodes st) (s_edges st) (s_rnodes st) (s_redges st) (s_stack st) (s_refstack st) r (s_err st) (s_log st) (s_maxdepth st) (s_recalc st) (s_reent st).
+Definition upd_err st e := mkState (s_cells st) (s_refs st) (s_data st) (s_inputs st) (s_nodes st) (s_edges st) (s_rnodes st) (s_redges st) (s_stack st) (s_refstack st) (s_rolled st) e (s_log st) (s_maxdepth st) (s_recalc st) (s_reent st).
+Definition upd_log st l := mkState (s_cells st) (s_refs st) (s_data st) (s_inputs st) (s_nodes st) (s_edges st) (s_rnodes st) (s_redges st) (s_stack st) (s_refstack st) (s_rolled st) (s_err st) l (s_maxdepth st) (s_recalc st) (s_reent st).
+Definition upd_cells st c := mkState c (s_refs st) (s_data st) (s_inputs st) (s_nodes st) (s_edges st) (s_rnodes st) (s_redges st) (s_stack st) (s_refstack st) (s_rolled st) (s_err st) (s_log st) (s_maxdepth st) (s_recalc st) (s_reent st).
+Definition upd_refs st r := mkState (s_cells st) r (s_data st) (s_inputs st) (s_nodes st) (s_edges st) (s_rnodes st) (s_redges st) (s_stack st) (s_refstack st) (s_rolled st) (s_err st) (s_log st) (s_maxdepth st) (s_recalc st) (s_reent st).
+Definition upd_recalc st b := mkState (s_cells st) (s_refs st) (s_data st) (s_inputs st) (s_nodes st) (s_edges st) (s_rnodes st) (s_redges st) (s_stack st) (s_refstack st) (s_rolled st) (s_err st) (s_log st) (s_maxdepth st) b (s_reent st).
+Definition upd_reent st b := mkState (s_cells st) (s_refs st) (s_data st) (s_inputs st) (s_nodes st) (s_edges st) (s_rnodes st) (s_redges st) (s_stack st) (s_refstack st) (s_rolled st) (s_err st) (s_log st) (s_maxdepth st) (s_recalc st) b.
 
 (** * Association lists and sets *)
 Fixpoint lookup_cell (l : list (cid * cell)) (c : cid) : option cell :=
@@ -454,7 +444,8 @@ with eval_formula (fuel : nat) (st : state) (cl : cell) (i : item) {struct fuel}
   | S f =>
       if Nat.ltb (s_maxdepth st) (List.length (s_stack st)) then (Err KDeep, st)
       else
-        let st1 := upd_log (upd_stack st (i :: s_stack st)) (i :: s_log st) in
+        let st1 := upd_reent (upd_log (upd_stack st (i :: s_stack st)) (i :: s_log st))
+                             (s_reent st || mem_item i (s_stack st)) in
         match exec_body f st1 (snd i) [] (cl_body cl) (cl_body cl) 0 with
         | (Val v, st2, _) =>
             if cl_cached cl then
@@ -634,7 +625,7 @@ Definition step (fuel : nat) (st : state) (o : op) : out * state :=
   end.
 
 Definition init (cells : list (cid * cell)) (refs : list (rid * (option nat * val))) (maxdepth : nat) : state :=
-  mkState cells refs [] [] [] [] [] [] [] [] [] None [] maxdepth false.
+  mkState cells refs [] [] [] [] [] [] [] [] [] None [] maxdepth false false.
 
 Fixpoint run (fuel : nat) (st : state) (ops : list op) : list out * state :=
   match ops with
